@@ -1697,6 +1697,18 @@ def gen_if_block(node, code, codegen):
 
         gen_code_for_block(body, code, codegen)
 
+        # (the jump over the remaining arms belongs to the arm that
+        # was just executed, i.e. to the IF / ELSEIF statement that
+        # opened it, not to the ELSEIF / ELSE that follows: that
+        # statement's record starts with its own code)
+        arm_stmt = cur_else_stmt or getattr(node, 'start_stmt', None)
+        if arm_stmt is not None and codegen.debug_info_enabled:
+            code.add(('_dbg_info_start', arm_stmt))
+        code.add(('jmp', endif_label))
+        if arm_stmt is not None and codegen.debug_info_enabled:
+            code.add(('_dbg_info_end', arm_stmt))
+        code.add(('_label', else_label))
+
         if codegen.debug_info_enabled:
             if elseif_stmts:
                 cur_else_stmt = elseif_stmts[0]
@@ -1706,9 +1718,6 @@ def gen_if_block(node, code, codegen):
 
             if cur_else_stmt:
                 code.add(('_dbg_info_start', cur_else_stmt))
-
-        code.add(('jmp', endif_label))
-        code.add(('_label', else_label))
 
     if cur_else_stmt and codegen.debug_info_enabled:
         code.add(('_dbg_info_end', cur_else_stmt))
